@@ -65,6 +65,9 @@ OP = st.one_of(
     st.tuples(st.just("resync"), st.integers(0, 9), st.booleans(), st.booleans()),
     st.tuples(st.just("unsync1"), st.integers(0, 9), st.booleans()),
     st.tuples(st.just("gc"), I2),
+    # a one-shot handler on objs[t].v that REMOVES a link (chosen among the live ones) when it is called - i.e. possibly in
+    # the middle of a propagation that is walking that very link table
+    st.tuples(st.just("arm_unlink"), I2, st.integers(0, 9)), st.tuples(st.just("arm_unlink"), I2, st.integers(0, 9)),
 ).map(list)
 
 
@@ -224,6 +227,18 @@ def run(case, ctx):
         for dst in out_edges(key):
             poison(dst, seen)
 
+    armed = {"link": None, "fired": None}
+
+    def adopt(key, seen):
+        """What a propagation delivered along a link that was being removed is unspecified: take reality as the new baseline."""
+        if key in seen or objs[key[0]] is None:
+            return
+        seen.add(key)
+        got = getattr(objs[key[0]], key[1])
+        M[key] = list(got) if key[1] in LISTS else got
+        for dst in out_edges(key):
+            adopt(dst, seen)
+
     ops = (FANOUT[case["prelude"]] if case.get("prelude") else []) + list(case["ops"])
     if case.get("prelude"):
         ctx.label("fanout:" + case["prelude"])
@@ -245,6 +260,24 @@ def run(case, ctx):
                     k = "sync"
                     interesting = True
                     ctx.label("resync")
+                if k == "arm_unlink":
+                    t = op[1]
+                    if not links or objs[t] is None or armed["link"] is not None:
+                        continue
+                    L_ = list(links[op[2] % len(links)])
+                    if objs[L_[0]] is None or objs[L_[2]] is None:
+                        continue
+                    armed["link"] = L_
+
+                    def one_shot():
+                        if armed["link"] is L_ and armed["fired"] is None:
+                            armed["fired"] = L_
+                            i_, n_, j_, a_, mutual_ = L_
+                            if objs[i_] is not None and objs[j_] is not None:
+                                objs[i_].sync_trait(n_, objs[j_], a_, mutual=mutual_, remove=True)
+                    objs[t].on_trait_change(one_shot, "v")
+                    ctx.label("unlink-handler-armed")
+                    continue
                 if k == "set":
                     i, n, val = op[1], op[2], op[3]
                     if objs[i] is None:
@@ -369,6 +402,19 @@ def run(case, ctx):
                 ctx.fail("terminate/recursion", "%s: RecursionError" % what)
             except Exception as e:
                 raised = e
+            if armed["fired"] is not None:
+                # the armed handler ran during this step and removed its link
+                i_, n_, j_, a_, mutual_ = armed["fired"]
+                armed["fired"] = armed["link"] = None
+                edges.discard((i_, n_, j_, a_))
+                if mutual_:
+                    edges.discard((j_, a_, i_, n_))
+                links[:] = [l for l in links if l[:4] != [i_, n_, j_, a_] and not (mutual_ and l[:4] == [j_, a_, i_, n_])]
+                seen_ = set()
+                adopt((j_, a_), seen_)
+                adopt((i_, n_), seen_)
+                interesting = True
+                ctx.label("link-removed-by-a-handler-during-a-change")
             if raised is not None:
                 ctx.fail("quiet/raised", "%s raised %r" % (what, raised))
             if err:
